@@ -778,11 +778,14 @@ namespace awkward {
     if (identities_.get() != nullptr) {
       identities = identities_.get()->getitem_carry_64(carry);
     }
-    return std::make_shared<ByteMaskedArray>(identities,
-                                             parameters_,
-                                             nextmask,
-                                             content_.get()->carry(carry, allow_lazy),
-                                             valid_when_);
+    // a lazily carried content is an IndexedArray, which an option-type node
+    // must not contain directly: simplify
+    ByteMaskedArray out(identities,
+                        parameters_,
+                        nextmask,
+                        content_.get()->carry(carry, allow_lazy),
+                        valid_when_);
+    return out.simplify_optiontype();
   }
 
   int64_t
